@@ -35,6 +35,9 @@ type ServiceSum struct {
 type Summary struct {
 	Services []ServiceSum
 	Keys     []string
+	// BadDefault: a list method's walk reaches an enum property whose default filter names no
+	// option; buildListRequest refuses the whole API ("unknown enum value")
+	BadDefault string
 }
 
 func csv(xs []string, empty string) string {
@@ -90,8 +93,9 @@ func itoa(i int) string {
 // ---- expected summary, from the declaration
 
 type expCtx struct {
-	spec *Spec
-	keys map[string]bool
+	spec       *Spec
+	keys       map[string]bool
+	badDefault string
 }
 
 func (s *Spec) schema(name string) *Schema {
@@ -202,6 +206,7 @@ func Expect(s *Spec) Summary {
 		out.Keys = append(out.Keys, k)
 	}
 	sort.Strings(out.Keys)
+	out.BadDefault = c.badDefault
 	return out
 }
 
@@ -211,6 +216,9 @@ func (c *expCtx) listWalk(ms *MethodSum, props []*Prop, pth []string, stack []st
 	for _, p := range props {
 		pp := append(append([]string{}, pth...), p.Name)
 		name := strings.Join(pp, ".")
+		if (p.T.K == "R" && p.T.Sub == "e" || p.T.K == "IE") && p.Has('f') && c.spec.defaultFilter(p) == "BOGUS" && c.badDefault == "" {
+			c.badDefault = ms.Name + ":" + name
+		}
 		switch k := p.T.K; {
 		case k == "R" && p.T.Sub == "e", k == "IE", k == "bool", k == "id62", k == "uuid", k == "key", k == "R" && p.T.Sub == "u", k == "IU":
 			if p.Has('f') {
